@@ -418,10 +418,17 @@ func (e *Engine) Run(t *tape.Tape, keep bool) *sim.Result {
 				msg = notif("$/cancelRequest", map[string]any{"id": nextID - 1})
 				apply = func() {}
 				note("cancelRequest")
-			default:
+			case kind < 98:
 				msg = notif("textDocument/didSave", map[string]any{"textDocument": map[string]any{"uri": d.uri}})
 				apply = func() {}
 				note("didSave")
+			default:
+				// the editor closes the document: it holds no text for it until the next
+				// didOpen (which must then install exactly the text it carries)
+				msg = notif("textDocument/didClose", map[string]any{"textDocument": map[string]any{"uri": d.uri}})
+				apply = func() { d.open = false }
+				res.Probes["did_close"]++
+				note("didClose " + d.uri)
 			}
 			if cut {
 				cutAt := t.Draw(len(msg))
